@@ -1,5 +1,5 @@
 (* Oracle entry points for C11 (glue: decoding of protocol values; unverified, trusted). *)
-From MoPep Require Import Model.Base Model.Anno Model.PtrCache Gen.AnnoConst.
+From MoPep Require Import Model.Base Model.Anno Model.PtrCache Model.GtfPtr Gen.AnnoConst.
 Open Scope Z_scope.
 
 Definition c11_err_code (e : err) : Z :=
@@ -86,3 +86,18 @@ Definition api_c11_cache_run (v : val) : val :=
   let load := load_of (map c11_pair (getL (argn 1 v))) in
   let g := if getB (argn 3 v) then get_fixed limit load else get limit load in
   VL (c11_trace limit g empty (getS (argn 2 v))).
+
+(* byte-range pointers.  lines = [[bytes; kind; key] ...], kind 0 = comment, 1 = gene record, 2 = other record
+   -> pointers in yield order [[isgene; key; start; end; transcripts] ...] *)
+Definition c11_line (v : val) : line :=
+  (getS (argn 0 v),
+   let k := getZ (argn 1 v) in
+   if k =? 1 then LGene (getZ (argn 2 v)) else if k =? 2 then LRec (getZ (argn 2 v)) else LComment).
+
+Definition api_c11_pointers (v : val) : val :=
+  VL (map (fun p => VL [ofB (p_isgene p); VZ (p_key p); VZ (p_start p); VZ (p_end p); ofS (p_txs p)])
+          (iterate (map c11_line (getL (argn 0 v))))).
+
+(* [lines; start; end] -> the bytes *Pointer.load reads *)
+Definition api_c11_ptr_load (v : val) : val :=
+  ofS (load_range (map c11_line (getL (argn 0 v))) (mkPtr false 0 (getZ (argn 1 v)) (getZ (argn 2 v)) [])).
